@@ -68,6 +68,9 @@ Variable sh : string -> option string.
 Variable cond_met : string -> string -> bool.
 (* the only input on which cronParser.Parse panics (robfig/cron v3.0.1 parser.go:97-99) *)
 Hypothesis cron_panic_tz : forall s, cron s = CronPanic -> tz_only s = true.
+(* the quoted alternative of the parameter regular expression ("(?:\\"|[^"])*") matches at least its two quotes *)
+Definition quoted_wf (v : string) : Prop := prefixb (str1 c_dquote) v = true -> Nat.ltb (slen v) 2 = false.
+Hypothesis tok_quoted : forall s n v, In (n, v) (tokenize s) -> quoted_wf v.
 
 (* ---------------------------------------------------------------------------------------------------- *)
 (* the effectful helpers never panic                                                                       *)
@@ -121,17 +124,21 @@ Proof.
   - intros e. match goal with |- outcome (bind ?m0 ?f e) <> Panic => apply (NP_bind _ _ m0 f) end; [apply exec_cmd_np|].
     intros [o|]; apply IH.
 Qed.
-Lemma parseParamValue_one_np : forall eval nv, NP (parseParamValue_one sh eval nv).
+Lemma parseParamValue_one_np : forall eval nv, quoted_wf (snd nv) -> NP (parseParamValue_one sh eval nv).
 Proof.
-  intros eval [name value]. unfold parseParamValue_one.
-  destruct (prefixb (str1 c_dquote) value || prefixb "`" value); [|apply NP_ret].
+  intros eval [name value] Hq. unfold parseParamValue_one. unfold quoted_wf in Hq. cbn [snd] in Hq.
+  destruct (prefixb (str1 c_dquote) value) eqn:Eq; cbn [andb orb].
+  { rewrite (Hq eq_refl). destruct eval; [|apply NP_ret].
+    apply NP_bind; [apply param_subst_loop_np|]. intros [v f]; simpl. destruct f; [apply NP_lift; discriminate | apply NP_ret]. }
+  destruct (prefixb "`" value); [|apply NP_ret].
   destruct eval; [|apply NP_ret].
   apply NP_bind; [apply param_subst_loop_np|]. intros [v f]; simpl. destruct f; [apply NP_lift; discriminate | apply NP_ret].
 Qed.
-Lemma parseParamValue_np : forall eval toks, NP (parseParamValue sh eval toks).
+Lemma parseParamValue_np : forall eval toks, (forall nv, In nv toks -> quoted_wf (snd nv)) -> NP (parseParamValue sh eval toks).
 Proof.
-  intros eval. induction toks as [|t r IH]; simpl; [apply NP_ret|].
-  apply NP_bind; [apply parseParamValue_one_np|]. intros p. apply NP_bind; [exact IH|]. intros; apply NP_ret.
+  intros eval. induction toks as [|t r IH]; simpl; intros H; [apply NP_ret|].
+  apply NP_bind; [apply parseParamValue_one_np, H; auto|]. intros p.
+  apply NP_bind; [apply IH; intros; apply H; auto|]. intros; apply NP_ret.
 Qed.
 Lemma parseParams_loop_np : forall eval noEval ps i r envs, NP (parseParams_loop eval noEval i ps r envs).
 Proof.
@@ -143,7 +150,10 @@ Proof.
   - apply IH.
 Qed.
 Lemma parseParams_np : forall value eval o, NP (parseParams tokenize sh value eval o).
-Proof. intros. unfold parseParams. apply NP_bind; [apply parseParamValue_np|]. intros; apply parseParams_loop_np. Qed.
+Proof.
+  intros. unfold parseParams. apply NP_bind; [|intros; apply parseParams_loop_np].
+  apply parseParamValue_np. intros [n v] Hin. exact (tok_quoted _ _ _ Hin).
+Qed.
 Lemma buildParams_np : forall d o, NP (buildParams tokenize sh d o).
 Proof. intros. unfold buildParams. apply NP_bind; [apply parseParams_np|]. intros; apply NP_ret. Qed.
 
@@ -700,7 +710,7 @@ Lemma parseParamValue_quiet : forall e toks, quiet e (parseParamValue sh false t
 Proof.
   intros e. induction toks as [|[name value] r IH]; simpl; [apply quiet_ret|].
   apply quiet_bind.
-  - destruct (_ || _); apply quiet_ret.
+  - destruct (_ && _); [apply quiet_lift|]. destruct (_ || _); apply quiet_ret.
   - intros p. apply quiet_bind; [exact IH | intros; apply quiet_ret].
 Qed.
 
